@@ -344,4 +344,4 @@ def check_fit(c, rec):
 
 
 def subchecks():
-    return [SubCheck("fit", check_fit, configs, quick=250, thorough=800, shards_quick=8, shards_thorough=8)]
+    return [SubCheck("fit", check_fit, configs, quick=250, thorough=4000, shards_quick=8, shards_thorough=16)]
